@@ -767,6 +767,12 @@ Note2: that Reed-Solomon can correct up to 2*resilience_rate erasures (eg, null 
                                             ptee.write("Failure: Too many consecutive uncorrectable errors for %s. Most likely, the ecc track was misdetected (try to repair the entrymarkers and field delimiters). Skipping this track/file." % relfilepath)
                                             db.seek(entry_p["ecc_field_pos"][1]) # Optimization: move the reading cursor to the beginning of the next ecc entry, this will save some iterations in get_next_entry()
                                             break
+                            # Copy over the rest of the file that is not covered by the ecc track (ecc track truncated or misdetected, too many consecutive errors, or data appended to the file with --ignore_size), so that the output always has the size of the input
+                            file.seek(outfile.tell())
+                            buf = file.read(65535)
+                            while buf:
+                                outfile.write(buf)
+                                buf = file.read(65535)
                     # Copying the last access time and last modification time from the original file TODO: a more reliable way would be to use the db computed by rfigc.py, because if a software maliciously tampered the data, then the modification date may also have changed (but not if it's a silent error, in that case we're ok).
                     filestats = os.stat(filepath)
                     os.utime(outfilepath, (filestats.st_atime, filestats.st_mtime))
